@@ -87,14 +87,23 @@ func init() {
 	v("IntRange", func(in *Interp, a []Value) Value {
 		t := in.nondet(in.conStr(a[0], "IntRange"), BV(64))
 		lo, hi := a[1].(*Term), a[2].(*Term)
-		in.assume(in.F.And(in.F.SLe(lo, t), in.F.SLe(t, hi)), "IntRange")
+		if lo.konst && hi.konst && sext(lo.cv, 64) <= sext(hi.cv, 64) {
+			in.assertPC(in.F.And(in.F.SLe(lo, t), in.F.SLe(t, hi)))
+		} else {
+			in.assume(in.F.And(in.F.SLe(lo, t), in.F.SLe(t, hi)), "IntRange")
+		}
 		return t
 	})
 	// Choice returns a concrete value in [0,n): symbolic variable concretised by fork.
 	v("Choice", func(in *Interp, a []Value) Value {
 		t := in.nondet(in.conStr(a[0], "Choice"), BV(64))
 		n := a[1].(*Term)
-		in.assume(in.F.ULt(t, n), "Choice")
+		if n.konst && n.cv > 0 {
+			// a bound on a fresh variable is always satisfiable: no feasibility query
+			in.assertPC(in.F.ULt(t, n))
+		} else {
+			in.assume(in.F.ULt(t, n), "Choice")
+		}
 		return in.F.Const(64, in.concretize(t, "Choice"))
 	})
 	v("Bytes", func(in *Interp, a []Value) Value {
@@ -398,6 +407,16 @@ func init() {
 		}
 		return in.F.Bool(false), true
 	})
+	// time.Now: an arbitrary instant (environment); no monotonic reading.
+	reg("time.Now", func(in *Interp, _ *Frame, fn *ssa.Function, a []Value) (Value, bool) {
+		st := in.zero(fn.Signature.Results().At(0).Type()).(*StructV)
+		sec := in.nondet("env_time_now", BV(64))
+		// seconds since year 1 within [1970, 2200): keeps Unix()/UnixNano() free of overflow
+		lo, hi := uint64(62135596800), uint64(62135596800+7258118400)
+		in.assume(in.F.And(in.F.ULe(in.F.Const(64, lo), sec), in.F.ULt(sec, in.F.Const(64, hi))), "time.Now returns an instant between 1970 and 2200")
+		st.f[1] = sec
+		return st, true
+	})
 	reg("internal/abi.NoEscape", func(in *Interp, _ *Frame, _ *ssa.Function, a []Value) (Value, bool) { return a[0], true })
 	reg("internal/abi.Escape", func(in *Interp, _ *Frame, _ *ssa.Function, a []Value) (Value, bool) { return a[0], true })
 	reg("runtime.KeepAlive", func(in *Interp, _ *Frame, _ *ssa.Function, a []Value) (Value, bool) { return nil, true })
@@ -606,11 +625,24 @@ func (in *Interp) upperByte(b *Term) *Term {
 }
 
 func (in *Interp) assumeASCII(bs []*Term) {
+	all := in.F.Bool(true)
 	for _, b := range bs {
 		if !b.konst {
-			in.assumeNoted(in.F.ULt(b, in.F.Const(8, 0x80)), "symbolic string bytes passed to case-folding functions are ASCII")
+			c := in.F.ULt(b, in.F.Const(8, 0x80))
+			if in.assumed == nil || !in.assumed[c] {
+				all = in.F.And(all, c)
+			}
 		} else if b.cv >= 0x80 {
 			panic(&pathEnd{kind: "unsupported", msg: "case folding of non-ASCII partially symbolic string"})
+		}
+	}
+	if !all.IsTrue() {
+		// one feasibility query for the whole string
+		in.assumeNoted(all, "symbolic string bytes passed to case-folding functions are ASCII")
+		for _, b := range bs {
+			if !b.konst {
+				in.assumed[in.F.ULt(b, in.F.Const(8, 0x80))] = true
+			}
 		}
 	}
 }
